@@ -76,22 +76,38 @@ Proof. exact verdict_of_perm. Qed.
 Print Assumptions C05_perm_outputs.
 
 (* schedules, without --early-exit: whatever the interleaving of main-loop steps and solver
-   callbacks, a finished run reports exactly model_verdict, whose label is the specified one *)
+   callbacks, a finished run reports exactly model_verdict, whose label is the specified one --
+   provided no synchronous stuck-path solve raises (EvMainRaise: a failed solver call that
+   surfaces as an exception instead of an `err` result) *)
 Theorem C05_schedule : forall ps sched r,
+  ~ In EvMainRaise sched ->
   result (run false ps sched) = Some r -> r = model_verdict ps /\ fst r = spec_verdict ps.
 Proof. exact schedule_no_early_exit. Qed.
 Print Assumptions C05_schedule.
 
-(* with or without --early-exit, for every interleaving: either the result is exactly
-   model_verdict, or --early-exit is on, the specified verdict is FAIL, some path is stuck and
-   the test is reported as having raised (ERROR / Exitcode.EXCEPTION) *)
+(* with or without --early-exit, for every interleaving in which no stuck-path solve raises on
+   its own: either the result is exactly model_verdict, or --early-exit is on, the specified
+   verdict is FAIL, some path is stuck and the test is reported as having raised
+   (ERROR / Exitcode.EXCEPTION) *)
 Theorem C05_schedule_early_exit_partial : forall ee ps sched r,
+  ~ In EvMainRaise sched ->
   result (run ee ps sched) = Some r ->
   r = model_verdict ps \/
   (ee = true /\ spec_verdict ps = LFail /\ r = (raised_label, raised_exitcode) /\
    exists p, In p ps /\ kind p = Stuck).
 Proof. exact schedule_sound. Qed.
 Print Assumptions C05_schedule_early_exit_partial.
+
+(* every schedule, including raising stuck-path solves: the only other outcome is "raised" for a
+   test that has a stuck path whose solver call failed *)
+Theorem C05_schedule_any_partial : forall ee ps sched r,
+  result (run ee ps sched) = Some r ->
+  r = model_verdict ps \/
+  (ee = true /\ spec_verdict ps = LFail /\ r = (raised_label, raised_exitcode) /\
+   exists p, In p ps /\ kind p = Stuck) \/
+  (r = (raised_label, raised_exitcode) /\ exists p, In p ps /\ kind p = Stuck /\ ans p = Err).
+Proof. exact schedule_sound_any. Qed.
+Print Assumptions C05_schedule_any_partial.
 
 (* ... hence no deviation at all when no path is stuck *)
 Theorem C05_schedule_no_stuck : forall ee ps sched r,
@@ -121,6 +137,18 @@ Proof.
   repeat split; reflexivity.
 Qed.
 Print Assumptions C05_schedule_refuted.
+
+(* the same without --early-exit: path 0 panics (sat, valid model), path 1 is stuck and its
+   solver call fails inside solve_low_level (e.g. a sat answer whose model text cannot be
+   parsed): the exception leaves run_test, ERROR instead of FAIL *)
+Theorem C05_schedule_refuted_no_early_exit :
+  exists ps sched r,
+    result (run false ps sched) = Some r /\ spec_verdict ps = LFail /\ r = (LError, EX_EXCEPTION).
+Proof.
+  exists [mkpath Panic (Sat true); mkpath Stuck Err], [EvMain; EvMain; EvMain; EvMainRaise], (LError, EX_EXCEPTION).
+  repeat split; reflexivity.
+Qed.
+Print Assumptions C05_schedule_refuted_no_early_exit.
 
 (* SolverOutput.from_result, completely: the class is decided by the first line of stdout alone
    (exactly "unsat" / "sat" / "unknown"); everything else -- empty output, garbage, different
